@@ -333,6 +333,7 @@ class Context:
         self.axioms = []    # (text, symbols) always-included if all symbols declared & used
         self.counter = 0
         self.sorts = {"U"}
+        self.recdefs = {}   # recursive definitions: name -> (params, sort, body text)
         self.qtag = {}      # forall text -> name of the clause it came from
         self.qreg = {}      # forall text -> (bound variable, inner text) for instantiation
 
@@ -357,6 +358,8 @@ class Context:
         """params: list of (name, sort)"""
         if name in self.decls:
             return name
+        if rec:
+            self.recdefs[name] = (list(params), sort, body_s)
         kw = "define-fun-rec" if rec else "define-fun"
         text = "(%s %s (%s) %s %s)" % (kw, name, " ".join("(%s %s)" % p for p in params), sort, body_s)
         deps = symbols(body_s) - {p[0] for p in params} - {name}
@@ -375,32 +378,102 @@ class Context:
         # longest first so that nested registered quantifiers are handled inside-out safely
         for q in sorted(self.qreg, key=len, reverse=True):
             if q in text:
-                v, inner = self.qreg[q]
+                v, inner, vsort = self.qreg[q]
                 if only_tag is not None and self.qtag.get(q) not in (None, only_tag):
                     text = text.replace(q, "true")      # hypothesis dropped in the focused stage
                     continue
                 pat = re.compile(r"(?<![\w!.])" + re.escape(v) + r"(?![\w!.])")
-                insts = [pat.sub(lambda m, t=t: t, inner) for t in terms]
+                insts = [pat.sub(lambda m, t=t: t[0], inner) for t in terms if t[1] == vsort]
                 parts = ([q] if keep else []) + insts
                 text = text.replace(q, "(and true %s)" % " ".join(parts))
         return text
 
-    def script(self, asserts, get_values=(), logic="ALL", inst_terms=(), keep_quantifiers=True, extra_terms=True, only_tag=None):
+    def applications(self, text, fname):
+        """argument lists (as texts) of the applications of fname occurring in text"""
+        out = []
+        key = "(" + fname + " "
+        pos = text.find(key)
+        while pos != -1:
+            i = pos + len(key)
+            args, depth, cur, instr = [], 0, "", False
+            while i < len(text):
+                ch = text[i]
+                if instr:
+                    cur += ch
+                    if ch == '"':
+                        if i + 1 < len(text) and text[i + 1] == '"':
+                            cur += '"'
+                            i += 1
+                        else:
+                            instr = False
+                elif ch == '"':
+                    instr = True
+                    cur += ch
+                elif ch == "(":
+                    depth += 1
+                    cur += ch
+                elif ch == ")":
+                    if depth == 0:
+                        if cur.strip():
+                            args.append(cur.strip())
+                        break
+                    depth -= 1
+                    cur += ch
+                elif ch == " " and depth == 0:
+                    if cur.strip():
+                        args.append(cur.strip())
+                    cur = ""
+                else:
+                    cur += ch
+                i += 1
+            out.append(tuple(args))
+            pos = text.find(key, pos + 1)
+        return out
+
+    def unfoldings(self, texts, depth=2):
+        """one-level unfolding instances of the recursive definitions at the application terms
+        occurring in texts (consequences of the definitions)"""
+        seen = set()
+        out = []
+        frontier = list(texts)
+        for _ in range(depth):
+            new = []
+            blob = " ".join(frontier)
+            for fname, (params, sort, body) in self.recdefs.items():
+                for args in set(self.applications(blob, fname)):
+                    if len(args) != len(params) or (fname, args) in seen:
+                        continue
+                    seen.add((fname, args))
+                    inst = body
+                    # simultaneous substitution of the parameters
+                    pat = re.compile(r"(?<![\w!.])(" + "|".join(re.escape(p[0]) for p in params) + r")(?![\w!.])")
+                    m = {p[0]: a for p, a in zip(params, args)}
+                    inst = pat.sub(lambda mm: m[mm.group(1)], body)
+                    eq = "(= (%s %s) %s)" % (fname, " ".join(args), inst)
+                    out.append(eq)
+                    new.append(eq)
+            frontier = new
+            if not new:
+                break
+        return out
+
+    def script(self, asserts, get_values=(), logic="ALL", inst_terms=(), keep_quantifiers=True, extra_terms=True, only_tag=None, unfold=False):
         """asserts: list of T (Bool). Only needed declarations are emitted.
         The last assert is the negated goal and is never weakened."""
-        terms = list(inst_terms)
+        terms = [(t.s, t.sort) if isinstance(t, T) else (t, INT) for t in inst_terms]
         if any("(forall" in a.s for a in asserts[:-1]):
             blob = " ".join(a.s for a in asserts)
-            terms += sorted(set(re.findall(r"(?<![\w!.])inst_[\w!.]+", blob)))
+            terms += [(x, INT) for x in sorted(set(re.findall(r"(?<![\w!.])inst_[\w!.]+", blob)))]
         if extra_terms and (terms or any("(forall" in a.s for a in asserts[:-1])):
             # further instantiation candidates: last positions of sequences, neighbours of skolems
             blob = " ".join(a.s for a in asserts)
             extra = set(re.findall(r"\(- \(seq\.len [^\s()]+\) 1\)", blob))
             extra |= set(re.findall(r"(?<![\w!.])inst_[\w!.]+", blob))
-            for t in list(inst_terms):
-                extra.add("(- %s 1)" % t)
-                extra.add("(+ %s 1)" % t)
-            terms += sorted(extra)[:12] + ["0"]
+            for t, srt in list(terms):
+                if srt == INT and not t.startswith("inst_"):
+                    extra.add("(- %s 1)" % t)
+                    extra.add("(+ %s 1)" % t)
+            terms += [(x, INT) for x in sorted(extra)[:12] + ["0"]]
         texts = [self.instantiate(a.s, terms, keep_quantifiers, only_tag) for a in asserts[:-1]] + [asserts[-1].s]
         used = set()
         for t in texts:
@@ -428,9 +501,20 @@ class Context:
                         used |= new
                     changed = True
         out = ["(set-logic %s)" % logic, "(declare-sort U 0)", "(declare-fun u!none () U)"]
+        unf = []
+        if unfold and self.recdefs:
+            unf = self.unfoldings(texts)
+            for t in unf:
+                used |= symbols(t)
         for name in self.order:
             if name in used:
-                out.append(self.decls[name][0])
+                if unfold and name in self.recdefs:
+                    params, sort, _ = self.recdefs[name]
+                    out.append("(declare-fun %s (%s) %s)" % (name, " ".join(p[1] for p in params), sort))
+                else:
+                    out.append(self.decls[name][0])
+        for t in unf:
+            out.append("(assert %s)" % t)
         for k in sorted(ax_in):
             out.append("(assert %s)" % self.axioms[k][0])
         for t in texts:
